@@ -1762,11 +1762,11 @@ class Qobj:
     def istp(self) -> bool:
         if self.type not in ['super', 'oper']:
             return False
-        # Normalize to a super of type choi or chi.
-        # We can test with either Choi or chi, since the basis
-        # transformation between them is unitary and hence
-        # preserves the CP and TP conditions.
-        if self.issuper and self.superrep in ('choi', 'chi'):
+        # Normalize to a super of type choi.
+        # The partial trace condition below is a condition on the Choi
+        # matrix: the Pauli basis change to chi does not commute with the
+        # partial trace, so chi matrices have to be converted first.
+        if self.issuper and self.superrep == 'choi':
             qobj = self
         else:
             qobj = qutip.to_choi(self)
